@@ -23,3 +23,26 @@ Theorem C17_trace_legal :
       replay_trace tab g (map e_st stk) inp (atrace tab g act fuel stk inp) = Some (states', inp').
 Proof. exact Trace.trace_legal. Qed.
 Print Assumptions C17_trace_legal.
+
+From YG Require Import LRBase Pipeline Front FrontAlign.
+Close Scope Z_scope.
+Open Scope nat_scope.
+
+(* the exact rule text: the generators print, for production i of the grammar object, the text of entry i-1 of the rule list of the grammar file (GetRules(i-1)); the two are aligned - production i+1 is built from list entry i, same left-hand side and right-hand-side symbols looked up by name - so the text printed for a reduction names the production that is reduced *)
+Theorem C17_rule_text_alignment :
+  forall (v : visited) (b : built),
+         build_grammar v = inr b ->
+         length (gi_rules (b_gi b)) = S (length (vs_rules v)) /\
+         (forall (i : nat) (r : vrule),
+          nth_error (vs_rules v) i = Some r ->
+          exists R : rule,
+            nth_error (gi_rules (b_gi b)) (S i) = Some R /\
+            sym_index (b_syms b) (v_lhs r) = Some (lhs R) /\
+            map_opt (sym_index (b_syms b)) (v_rhs r) = Some (rhs R) /\
+            nth_error (b_rule_prec b) (S i) =
+            Some match v_prec r with
+                 | Some n => sym_index (b_syms b) n
+                 | None => None
+                 end).
+Proof. exact FrontAlign.rules_aligned. Qed.
+Print Assumptions C17_rule_text_alignment.
